@@ -334,16 +334,22 @@ func genSeqMap(prop string, seed uint64, tier string, kinds []string) *SeqScenar
 	if tier == "thorough" {
 		maxOps = 300
 		bulkMax = 2000
-		if g.r.Bool(0.05) {
-			// tens of thousands of keys: every grow threshold up to 2^15 buckets,
-			// more counter stripes; few calls so that the run stays affordable
-			bulkMax = 90000
-			maxOps = 25
-		}
+
 	}
-	if tier != "thorough" && g.r.Bool(0.003) {
-		bulkMax = 90000 // rare in the quick tier: enough keys for 2^15 buckets and every counter-stripe count
-		maxOps = 12
+	hugeP := 0.003
+	if tier == "thorough" {
+		hugeP = 0.02
+	}
+	if sc.A.HashMode == "det" && (sc.A.Hasher == "" || sc.A.Hasher == "default" || sc.A.Hasher == "seeded" || sc.A.Hasher == "identity" || sc.A.Hasher == "growonly") && g.r.Bool(hugeP) {
+		// tens of thousands of keys: every grow threshold up to 2^15 buckets and
+		// every number of counter stripes, then shrink all the way back
+		n := 40000 + g.r.Intn(50000)
+		keep := g.r.Intn(1200)
+		sc.Ops = append(sc.Ops, Op{K: XBulkInsert, Key: 7000, Val: 300000, N: n}, Op{K: MSize})
+		sc.Ops = append(sc.Ops, Op{K: XBulkDelete, Key: 7000 + keep, N: n - keep}, Op{K: MSize})
+		sc.Ops = append(sc.Ops, Op{K: MLoad, Key: 7000}, Op{K: MLoad, Key: 7000 + n - 1}, Op{K: MStore, Key: 1, Val: g.val()})
+		sc.Ops = append(sc.Ops, Op{K: XBulkInsert, Key: 7000 + n, Val: 500000, N: 50 + g.r.Intn(3000)}, Op{K: MSize}, Op{K: MRange, Stop: 3})
+		return sc
 	}
 	// chains are walked linearly: under forced collisions keep the key count
 	// where a run costs millions of steps, not billions
